@@ -369,6 +369,8 @@ def check(run):
     # and E512/E513 compare against the coerced type -- the coercion relation is part of "requires an explicit &" (shared with C07.R5)
     from props import c07
     c07.r3_r5_relations(run, F)
+    # E512/E513 (an argument that needs `&`) and E531-E533 (whole-aggregate copies) are only raised where the call analyzer looks: its T2 (C07.R7)
+    c07.r7_visit(run, F)
     if run.tier == "thorough":
         FA = run.facts("A")
         run.key_prefix = "cfgA:"
